@@ -235,12 +235,9 @@ Out run_case(const Spec& s) {
     if (s.ctor_mode == 0) gb = new G(s.lo[0], s.lo[1], s.lo[2], s.hi[0], s.hi[1], s.hi[2], s.vs, NP);
     else if (s.ctor_mode == 1) {
         // the contact model re-dimensions one grid object every iteration: build on a decoy box, fill, re-dimension
-        // (every other time the decoy box has the extents of the target box with the axes rotated: the same number of voxels, arranged differently)
-        const bool rotated_decoy = (s.k_store + s.variant) % 2 == 0 && (double)(s.hi[0] - s.lo[0]) / s.vs < 400 && (double)(s.hi[1] - s.lo[1]) / s.vs < 400 && (double)(s.hi[2] - s.lo[2]) / s.vs < 400;
-        double dl[3], dh[3]; for (int a = 0; a < 3; a++) { dl[a] = s.lo[a] - 3 * s.vs; dh[a] = dl[a] + (rotated_decoy ? (s.hi[(a + 1) % 3] - s.lo[(a + 1) % 3]) : 2.5 * s.vs); }
-        if (rotated_decoy) o.bin("redimensioned_from_a_box_with_rotated_extents");
+        double dl[3], dh[3]; for (int a = 0; a < 3; a++) { dl[a] = s.lo[a] - 3 * s.vs; dh[a] = dl[a] + 2.5 * s.vs; }
         gb = new G(dl[0], dl[1], dl[2], dh[0], dh[1], dh[2], s.vs, 5);
-        for (int t = 0; t < 5; t++) { double f = 0.1 + 0.2 * t; gb->place_object(T(1000 + t), dl[0] + f * (dh[0] - dl[0]), dl[1] + f * (dh[1] - dl[1]), dl[2] + f * (dh[2] - dl[2])); }
+        for (int t = 0; t < 5; t++) { double f = 0.1 + 0.2 * t; gb->place_object(T(1000 + t), dl[0] + f * 2.5 * s.vs, dl[1] + f * 2.5 * s.vs, dl[2] + f * 2.5 * s.vs); }
         gb->update_dimensions(NP, s.lo[0], s.lo[1], s.lo[2], s.hi[0], s.hi[1], s.hi[2]);
     } else { ga = G(s.lo[0], s.lo[1], s.lo[2], s.hi[0], s.hi[1], s.hi[2], s.vs, NP); gp = &ga; }
     if (!gp) gp = gb;
